@@ -29,11 +29,16 @@ func New(config Configuration, statsdClient *statsd.Client) (*SSOProxy, error) {
 
 	hostRouter := hostmux.NewRouter()
 	for _, upstreamConfig := range config.UpstreamConfigs.upstreamConfigs {
+		// an upstream may name its own provider_slug; the deployment default applies otherwise
+		upstreamConfigs := config.UpstreamConfigs
+		if upstreamConfig.ProviderSlug != "" {
+			upstreamConfigs.DefaultConfig.ProviderSlug = upstreamConfig.ProviderSlug
+		}
 		provider, err := newProvider(
 			config.ClientConfig,
 			config.ProviderConfig,
 			config.SessionConfig,
-			config.UpstreamConfigs,
+			upstreamConfigs,
 			statsdClient,
 		)
 		if err != nil {
